@@ -11,7 +11,7 @@ pub fn spec() -> PropSpec {
     PropSpec {
         id: "C04",
         level: "exploration",
-        rule: "all multisets of 1..3 solutions (thorough: 4) from a colliding domain — 2 contracts x 6 predicates (always true; data output computing [1]->[9]; post-state constraints 'key [0] reads [7]', '[0] reads [8]', '[1] reads [9]', '[1] reads [7]') x 6 declared mutation sets over keys {[0],[1]} and values {[],[7],[8]} — x ALL permutations. Metamorphic oracle across the permutations of one set: identical content address, identical check_set verdict class; for accepted sets identical two-pass verdict (failing solutions matched through the permutation), total gas and computed mutations per solution; invariant: an accepted set never contains two mutations of one (contract, key) with different values. non-trivial = set with >= 2 solutions that check_set accepts; distinct by the sorted set",
+        rule: "all multisets of 1..3 solutions (thorough: 4) from a colliding domain — 2 contracts x 6 predicates (always true; data output computing [1]->[9]; post-state constraints 'key [0] reads [7]', '[0] reads [8]', '[1] reads [9]', '[1] reads [7]') x 8 declared mutation lists over keys {[0],[1]} and values {[],[7],[8]}, two of them writing key [0] twice — x ALL permutations. Metamorphic oracle across the permutations of one set: identical content address, identical check_set verdict class; for accepted sets identical two-pass verdict (failing solutions matched through the permutation), total gas and computed mutations per solution; invariant: an accepted set never contains two mutations of one (contract, key) with different values. non-trivial = set with >= 2 solutions that check_set accepts; distinct by the sorted set",
         assumptions: &["predicates come from a fixed menu; the state is empty"],
         run,
         replay,
@@ -54,6 +54,10 @@ fn mutation_menu() -> Vec<Vec<(Vec<W>, Vec<W>)>> {
         vec![(vec![0], vec![])],
         vec![(vec![1], vec![7])],
         vec![(vec![0], vec![7]), (vec![1], vec![8])],
+        // one solution writing one key twice (same value / different values): never acceptable,
+        // whatever else the set contains and wherever the solution stands in it
+        vec![(vec![0], vec![7]), (vec![0], vec![7])],
+        vec![(vec![0], vec![7]), (vec![0], vec![8])],
     ]
 }
 
